@@ -41,13 +41,15 @@ def iso_utc(d, keep_micro):
     return d2.isoformat() + CUR_TZ[0]
 
 
-def gen_spec(rnd):
+def gen_spec(rnd, nrec=None):
     """a random well-formed generation: (spec for the model, python-side description)"""
-    nrec = rnd.randint(0, 5)
+    nrec = rnd.randint(0, 5) if nrec is None else nrec
     recs = []
     used = set()
     for _ in range(nrec):
         p = rpath(rnd)
+        if nrec > 20:
+            p = "%s/%04d %s" % (p, len(used), rnd.choice(STRINGS))  # many distinct, longish paths: a manifest of several read blocks
         if p in used or p == ".":
             continue
         used.add(p)
@@ -238,7 +240,8 @@ def run(ctx):
         os.environ["TZ"] = tzname
         _time.tzset()
         CUR_TZ[0] = suffix
-        spec = gen_spec(rnd)
+        # every 50th generation is large (hundreds of records: a manifest that the reader receives in several blocks)
+        spec = gen_spec(rnd, nrec=rnd.randint(250, 600) if i % 50 == 7 else None)
         with rt.tempdir("c10_") as d:
             root = os.path.join(d, "root")
             os.makedirs(root)
